@@ -90,6 +90,11 @@ func (v varReader) Read(r io.Reader) ([]byte, error) {
 			return nil, fmt.Errorf("read %d/%d: %s",
 				i+1, size, err)
 		}
+		if len(data) == 0 {
+			// the elements occupy no byte (void, empty tuple):
+			// every further iteration would read nothing.
+			break
+		}
 		err = basic.WriteN(&buf, data, len(data))
 		if err != nil {
 			return nil, fmt.Errorf("read %d/%d: %s",
